@@ -68,7 +68,9 @@ def add_impl_aliases(funcs, src):
             mm2 = re.search(r"(?:struct|enum)\s+(\w+)", " ".join(lines[line - 1:line + 6]))
             if not mm2:
                 continue
-            ty, trait = mm2.group(1), None
+            ty = mm2.group(1)
+            trait = {"eq": "PartialEq", "ne": "PartialEq", "clone": "Clone", "fmt": "Debug", "default": "Default", "cmp": "Ord",
+                     "partial_cmp": "PartialOrd", "hash": "Hash"}.get(rest.split("::")[0])
         else:
             trait, ty = mm.group(1), mm.group(2)
         ty = ty.split("::")[-1]
